@@ -670,6 +670,34 @@ def trace_correspondence(ctx, drv, cp, case, tr, B, R, C, n_pre, views_B, views_
                 break
         if not ans["ok"]["resume_eq"]:
             raise HarnessError("model: resume_eq violated on a concrete instance")
+    # (f) growth 6 — the live-gradient model (Model/CheckpointLive.lean): every zero_grad_all() of the saved and of the reloaded
+    # object, with the .grad presence masks before it, and the masks right before the following step_optimizers()
+    for who, evs in (("saved", evs_B), ("reload", evs_R)):
+        pairs, last_zero = [], None
+        for e in evs:
+            if e["ev"] == "zero":
+                last_zero = e
+            elif e["ev"] == "step" and last_zero is not None and "all_grads" in e:
+                pairs.append((last_zero, e))
+                last_zero = None
+        if len(pairs) > 3:
+            pairs = pairs[:2] + pairs[-1:]
+        reqs = [{"op": "live", "models": [[k, z["has"][k], z["before"][k], s_["all_grads"][k]] for k in cp.KEYS]} for z, s_ in pairs]
+        for (z, s_), ans in zip(pairs, drv.ask_many(reqs) if reqs else []):
+            if "err" in ans:
+                raise HarnessError(f"driver: {ans}")
+            ctx.count()
+            ctx.dist["trace:live"] += 1
+            stale = any(z["before"][k][i] and not z["has"][k] for k in cp.KEYS for i in range(len(z["before"][k])))
+            ctx.dist[f"trace:live:stale_grad_on_a_model_without_optimizer={stale}"] += 1
+            model = {"zeroed": {k: m for k, m in ans["ok"]["zeroed"]}, "after": {k: m for k, m in ans["ok"]["after"]}}
+            impl = {"zeroed": z["after"], "after": s_["all_grads"]}
+            if model != impl:
+                ctx.disagree("trace-live", dict(case, who=who, zero_event={k: v for k, v in z.items() if k != "obj"}), model, impl,
+                             ".grad presence after zero_grad_all() / before step_optimizers() differs from Model.CheckpointLive (zeroGradAll / backwardAcc)")
+                break
+            if not ans["ok"]["live_eq_iter"]:
+                raise HarnessError("model: liveIter_fst violated on a concrete instance")
     # (e) session histories: the call-level model
     if cfg.get("session") and sess is not None:
         pre_calls, post_calls = cp.split_program(cfg["calls"], case["split"][0], case["split"][1])
